@@ -11,6 +11,8 @@ import (
 	"strings"
 	"time"
 
+	"github.com/benoitkugler/webrender/text"
+
 	"wrverif/mp"
 	"wrverif/render"
 	"wrverif/res"
@@ -517,6 +519,159 @@ func runViewbox(m *mp.Model, r *rng.R, n int, out *res.Result) error {
 			}
 			if clip == nil || clip.F[0] != 0 || clip.F[1] != 0 || clip.F[2] != W || clip.F[3] != H {
 				out.Add(res.Finding{Kind: "judge", Op: "judge:viewbox", Input: src, Reason: "nested svg viewport clip is not (0,0,width,height)", Key: "nested-clip", Seed: caseSeed})
+			}
+		}
+	}
+	return nil
+}
+
+// ---------------------------------------------------------------------------------------------
+// root <svg> WITHOUT viewBox: user space coincides with the viewport whatever width/height say
+
+type rootDim struct {
+	text string  // attribute text, "" = absent
+	abs  bool    // an absolute length (px, unitless, em): the viewport has this size
+	v    float64 // its value in px
+}
+
+func genRootDim(r *rng.R) rootDim {
+	switch r.Intn(5) {
+	case 0:
+		return rootDim{}
+	case 1:
+		p := float64(r.Range(1, 8)) * 12.5
+		return rootDim{text: fmtF(p) + "%"}
+	case 2:
+		v := float64(r.Range(1, 30)) * 10
+		return rootDim{text: fmtF(v) + "px", abs: true, v: v}
+	case 3:
+		k := float64(r.Range(1, 20))
+		return rootDim{text: fmtF(k) + "em", abs: true, v: k * 16} // default font size 12pt = 16px
+	}
+	v := float64(r.Range(1, 30)) * 10
+	return rootDim{text: fmtF(v), abs: true, v: v}
+}
+
+// rectTransforms returns the two Transform calls (translation, viewBox mapping) that precede the rectangle
+// x y 3 5 on its canvas, and the clip rectangle in front of them if any.
+func rectTransforms(evs []render.Ev, x, y float64) (ts []render.Ev, ok bool) {
+	for q, e := range evs {
+		if e.Op == "Rectangle" && len(e.F) == 4 && e.F[0] == x && e.F[1] == y && e.F[2] == 3 && e.F[3] == 5 {
+			for k := q - 1; k >= 0 && len(ts) < 2; k-- {
+				if evs[k].Op == "Transform" && evs[k].Canvas == e.Canvas {
+					ts = append([]render.Ev{evs[k]}, ts...)
+				}
+			}
+			return ts, len(ts) == 2
+		}
+	}
+	return nil, false
+}
+
+func runRootNoViewbox(m *mp.Model, r *rng.R, n int, fonts text.FontConfiguration, out *res.Result) error {
+	for i := 0; i < n; i++ {
+		cr := r.Sub()
+		caseSeed := cr.Seed()
+		dw, dh := genRootDim(cr), genRootDim(cr)
+		attrs := ""
+		if dw.text != "" {
+			attrs += fmt.Sprintf(` width="%s"`, dw.text)
+		}
+		if dh.text != "" {
+			attrs += fmt.Sprintf(` height="%s"`, dh.text)
+		}
+		par := "xMidYMid"
+		if cr.P(1, 2) {
+			par = aligns[cr.Intn(len(aligns))].t + rng.Pick(cr, "", " meet", " slice")
+			if cr.P(1, 8) {
+				par = "none"
+			}
+			attrs += fmt.Sprintf(` preserveAspectRatio="%s"`, par)
+		}
+		x, y := float64(cr.Range(0, 40)), float64(cr.Range(0, 40))
+		svgSrc := fmt.Sprintf(`<svg%s><rect x="%s" y="%s" width="3" height="5"/></svg>`, attrs, fmtF(x), fmtF(y))
+		// the viewport: a declared absolute length is the viewport's size; otherwise the container decides
+		cw, ch := float64(cr.Range(5, 35)*10), float64(cr.Range(5, 25)*10)
+		W, H := cw, ch
+		if dw.abs {
+			W = dw.v
+		}
+		if dh.abs {
+			H = dh.v
+		}
+		kind := func(d rootDim) string {
+			switch {
+			case d.text == "":
+				return "absent"
+			case strings.HasSuffix(d.text, "%"):
+				return "percent"
+			case strings.HasSuffix(d.text, "em"):
+				return "em"
+			}
+			return "px"
+		}
+		out.Hit("root-no-viewbox:width=" + kind(dw) + ",height=" + kind(dh))
+		via := "api"
+		var dr drawn
+		var src string
+		if i%4 == 3 {
+			via = "html"
+			src = fmt.Sprintf(`<style>@page{size:400px 300px;margin:0} html,body{margin:0} svg{display:block}</style><body><div style="width:%vpx;height:%vpx">%s</div>`, cw, ch, svgSrc)
+			dr = drawPipelineRaw(src, fonts)
+		} else {
+			src = svgSrc
+			dr = drawSVG(svgSrc, fl(W), fl(H))
+		}
+		out.Count(src, dw.abs != dh.abs || dw.text != "" || dh.text != "")
+		out.Hit("root-no-viewbox:via-" + via)
+		if i < 1 {
+			out.Sample(map[string]interface{}{"svg": src, "viewport": []float64{W, H}, "seed": caseSeed})
+		}
+		if !dr.oc.OK() || dr.err != nil {
+			out.Add(res.Finding{Kind: "crash", Op: "crash:root-no-viewbox", Input: src, Reason: fmt.Sprint(dr.oc.Panic, dr.oc.Timeout, dr.err), Key: dr.oc.Site, Seed: caseSeed})
+			continue
+		}
+		ts, ok := rectTransforms(dr.evs, x, y)
+		if !ok {
+			out.Add(res.Finding{Kind: "judge", Op: "judge:root-no-viewbox", Input: src, Reason: "the rect is not drawn at its user-space coordinates under two Transform calls", Seed: caseSeed})
+			continue
+		}
+		// judge: without a viewBox user space coincides with the viewport: translation(0,0) then the identity
+		got := ts[1].F
+		t0 := ts[0].F
+		ident := []float64{1, 0, 0, 1, 0, 0}
+		bad := ""
+		for q := 0; q < 6; q++ {
+			if math.Abs(got[q]-ident[q]) > tol20*math.Max(1, math.Max(W, H)) || t0[q] != ident[q] {
+				bad = fmt.Sprintf("translation %v, mapping %v", t0, got)
+			}
+		}
+		if bad != "" {
+			out.Add(res.Finding{Kind: "judge", Op: "judge:root-no-viewbox", Input: src, Impl: bad,
+				Reason: fmt.Sprintf("no viewBox: user space must coincide with the %vx%v viewport (identity mapping)", W, H), Seed: caseSeed})
+		} else {
+			out.Hit("root-no-viewbox:judge-ok")
+		}
+		// correspondence: rootTransform
+		ow, oh := sx.A("none"), sx.A("none")
+		if dw.abs {
+			ow = sx.R(dw.v)
+		}
+		if dh.abs {
+			oh = sx.R(dh.v)
+		}
+		ans, err := m.Ask(sx.L(sx.A("root"), sx.R(W), sx.R(H), ow, oh, sx.S(par)))
+		if err != nil {
+			return err
+		}
+		if ans.Head() != "ok" || len(ans.Xs) != 2 || len(ans.Xs[1].Xs) != 4 {
+			return fmt.Errorf("model rejected root request: %s", ans)
+		}
+		for q, idx := range []int{0, 3, 4, 5} {
+			f, _, _ := ratF(ans.Xs[1].Xs[q])
+			if math.Abs(got[idx]-f) > tol20*math.Max(1, math.Max(W, H)) {
+				out.Add(res.Finding{Kind: "corr", Op: "corr:root-no-viewbox", Input: src, Impl: fmt.Sprint(got), Model: ans.String(), Seed: caseSeed})
+				break
 			}
 		}
 	}
